@@ -115,6 +115,14 @@ def access_path(fn, x, _seen=None, _depth=0):
     if k in ("ref", "rawptr"):
         r, st = access_path(fn, rv["p"], _seen, _depth + 1)
         return r, st + tuple(steps)
+    if k == "agg" and "tuple" in rv and steps and steps[0][0] == "f" and str(steps[0][1]).isdigit() and \
+            int(steps[0][1]) < len(rv["ops"]):
+        # a field of a tuple built in place: (a, b).0 is a
+        o = rv["ops"][int(steps[0][1])]
+        if is_const(o):
+            return ("const", const_repr(o)), tuple(steps[1:])
+        r, st = access_path(fn, o, _seen, _depth + 1)
+        return r, st + tuple(steps[1:])
     return ("local", l), tuple(steps)
 
 
